@@ -216,6 +216,7 @@ def run(cx: Cx):
         check_keyed_insert(cx, fn.qualname, loc, Attr(Sym(fn.params[0]), field), App('type', (comp,)), comp)
     for fn, loc, field in ((remc, MC, '_components'), (remi, AC, 'components')):
         check_keyed_delete(cx, fn.qualname, loc, Attr(Sym(fn.params[0]), field), Sym(fn.params[1]))
+    _lookups(cx)
 
 
 def _subterms(t):
@@ -226,3 +227,15 @@ def _subterms(t):
         for a in t.args:
             out += _subterms(a)
     return out
+
+
+def _lookups(cx: Cx):
+    """Accessors: present -> the stored component, absent -> error / None; presence by membership, never by truthiness."""
+    from .common import check_lookup, check_presence_not_truthiness
+    gcc = cx.fn(META + '.get_class_component')
+    gic = cx.fn(CORE + 'Agent.get_component')
+    check_lookup(cx, gcc.qualname, Attr(Sym(gcc.params[0]), '_components'), Sym(gcc.params[1]), 'ComponentNotFoundError')
+    check_lookup(cx, gic.qualname, Attr(Sym(gic.params[0]), 'components'), Sym(gic.params[1]), 'ComponentNotFoundError')
+    check_presence_not_truthiness(cx, [gcc.qualname, gic.qualname, META + '.add_class_component', META + '.remove_class_component',
+                                       CORE + 'Agent.add_component', CORE + 'Agent.remove_component',
+                                       META + '.has_class_component', CORE + 'Agent.has_component'])
